@@ -263,7 +263,8 @@ def enum_table(cls, idx, f):
 
 
 def is_symbolic(x, _depth=0):
-    if isinstance(x, (SInt, SBool, SSeq, SEnum, SEnumValue, SObj, SFlags, SRat, SDateTime, STimeDelta, SAbs)):
+    if isinstance(x, (SInt, SBool, SSeq, SEnum, SEnumValue, SObj, SFlags, SRat, SDateTime, STimeDelta, SAbs, SStr,
+                      SCoded, SCodedValue)):
         return True
     if _depth > 4:
         return False
@@ -282,3 +283,37 @@ class SStr(object):
 
     def __repr__(self):
         return 'SStr(n=%s)' % self.seq.n
+
+
+class CodedSpec(object):
+    """a wire code space: known codes decode to members of enum_cls (optionally wrapped), unknown ones to
+    fallback_cls(code) (or are rejected when fallback_cls is None)"""
+
+    def __init__(self, enum_cls, fallback_cls, width, wrap_known=None):
+        self.enum_cls, self.fallback_cls, self.width, self.wrap_known = enum_cls, fallback_cls, width, wrap_known
+        self.members = list(enum_cls)
+        self.codes = [m.value.code for m in self.members]
+
+    def known(self, code):
+        return z3.Or(*[code == c for c in self.codes]) if self.codes else z3.BoolVal(False)
+
+    def first_index(self, code):
+        idx = z3.IntVal(-1)
+        for k in range(len(self.codes) - 1, -1, -1):
+            idx = z3.If(code == self.codes[k], z3.IntVal(k), idx)
+        return idx
+
+    def key(self):
+        return (self.enum_cls, self.fallback_cls, self.width, self.wrap_known)
+
+
+class SCoded(object):
+    """abstract view of a vector item that is determined by its wire code (member if known, fallback object otherwise)"""
+
+    def __init__(self, spec, code):
+        self.spec, self.code = spec, code
+
+
+class SCodedValue(object):
+    def __init__(self, sc):
+        self.sc = sc
